@@ -2,6 +2,7 @@ package main
 
 import (
 	"fmt"
+	"io/ioutil"
 	"os"
 	"path/filepath"
 	"reflect"
@@ -183,30 +184,50 @@ func (c *ctx) runCaseOnce(k kase, ref *reference) (o *outcome, retry bool) {
 	}
 
 	// ---- the run that dies before write k ----
-	w1 := filepath.Join(dir, "w1.log")
-	p1 := c.vnodeRun("crash", "-dir", ndir, "-workload", k.Workload, "-k", fmt.Sprint(k.K), "-log", w1)
-	if p1.TimedOut {
-		return inconclusive("deadline:crash-run")
-	}
-	sites, crashed := readWriteLog(w1)
-	if p1.Exit == 7 { // fewer writes than the reference this time
-		o.Inconclusive = "write-log-shorter-than-reference"
-		return o, true
-	}
-	if p1.Exit != 86 || !crashed {
-		// the node died on its own before the crash point: not a C06 case
-		line, site := parsePanic(p1.Stderr)
-		return inconclusive(fmt.Sprintf("node-died-before-crash-point exit=%d %s %s", p1.Exit, site, head(line, 120)))
-	}
-	if len(sites) != k.K || !equalStrings(sites[:k.K-1], ref.Sites[:k.K-1]) || sites[k.K-1] != ref.Sites[k.K-1] {
-		o.Inconclusive = "write-log-not-a-prefix-of-reference"
-		return o, true
-	}
+	// (second level: the directory image the first-level case (workload, k) left
+	// behind when it died is reused, when there is one — the first crash is
+	// literally the same)
 	var preCommits []commitRec
-	for _, raw := range p1.Lines["COMMIT"] {
-		var cr commitRec
-		if jsonUnmarshal(raw, &cr) {
-			preCommits = append(preCommits, cr)
+	snapKey := fmt.Sprintf("%s/%d", k.Workload, k.K)
+	c.refMu.Lock()
+	snap := c.snaps[snapKey]
+	c.refMu.Unlock()
+	if k.K2 > 0 && snap != nil && copyDir(snap.dir, ndir) == nil {
+		preCommits = snap.preCommits
+	} else {
+		os.RemoveAll(ndir)
+		w1 := filepath.Join(dir, "w1.log")
+		p1 := c.vnodeRun("crash", "-dir", ndir, "-workload", k.Workload, "-k", fmt.Sprint(k.K), "-log", w1)
+		if p1.TimedOut {
+			return inconclusive("deadline:crash-run")
+		}
+		sites, crashed := readWriteLog(w1)
+		if p1.Exit == 7 { // fewer writes than the reference this time
+			o.Inconclusive = "write-log-shorter-than-reference"
+			return o, true
+		}
+		if p1.Exit != 86 || !crashed {
+			// the node died on its own before the crash point: not a C06 case
+			line, site := parsePanic(p1.Stderr)
+			return inconclusive(fmt.Sprintf("node-died-before-crash-point exit=%d %s %s", p1.Exit, site, head(line, 120)))
+		}
+		if len(sites) != k.K || !equalStrings(sites[:k.K-1], ref.Sites[:k.K-1]) || sites[k.K-1] != ref.Sites[k.K-1] {
+			o.Inconclusive = "write-log-not-a-prefix-of-reference"
+			return o, true
+		}
+		for _, raw := range p1.Lines["COMMIT"] {
+			var cr commitRec
+			if jsonUnmarshal(raw, &cr) {
+				preCommits = append(preCommits, cr)
+			}
+		}
+		if c.keepSnaps && k.K2 == 0 && snap == nil {
+			sd := filepath.Join(c.work, "snap", fmt.Sprintf("%s_k%d", k.Workload, k.K))
+			if copyDir(ndir, sd) == nil {
+				c.refMu.Lock()
+				c.snaps[snapKey] = &snapshot{dir: sd, preCommits: preCommits}
+				c.refMu.Unlock()
+			}
 		}
 	}
 
@@ -366,6 +387,34 @@ func (c *ctx) runCaseOnce(k kase, ref *reference) (o *outcome, retry bool) {
 		o.Class += " → " + strings.Join(uniqStrings(ks), "+")
 	}
 	return o, false
+}
+
+// snapshot is the runtime directory of a first-level case as the dying node left it.
+type snapshot struct {
+	dir        string
+	preCommits []commitRec
+}
+
+// copyDir copies a directory tree (regular files only).
+func copyDir(src, dst string) error {
+	return filepath.Walk(src, func(p string, info os.FileInfo, err error) error {
+		if err != nil {
+			return err
+		}
+		rel, _ := filepath.Rel(src, p)
+		t := filepath.Join(dst, rel)
+		if info.IsDir() {
+			return os.MkdirAll(t, 0755)
+		}
+		if !info.Mode().IsRegular() {
+			return nil
+		}
+		b, err := ioutil.ReadFile(p)
+		if err != nil {
+			return err
+		}
+		return ioutil.WriteFile(t, b, info.Mode().Perm())
+	})
 }
 
 // recoveryLog returns the write sites of the recovery run of the first-level
